@@ -8,6 +8,7 @@ import Mahotas.Proofs.C17
 import Mahotas.Proofs.C17PR
 import Mahotas.Proofs.C17Resid
 import Mahotas.Proofs.C17General
+import Mahotas.Proofs.C17Energy
 import Mathlib.Algebra.Order.Ring.Rat
 namespace Mahotas.C17
 open Mahotas
@@ -520,3 +521,112 @@ example : inner2 2 2 (fun y x => ((3 * y + x + 1 : Nat) : Rat)) (fun y x => ((y 
     inner2 2 2 (haar2 true 2 2 (fun y x => ((3 * y + x + 1 : Nat) : Rat)))
       (haar2 true 2 2 (fun y x => ((y + 2 * x : Nat) : Rat))) = 23 := by
   constructor <;> norm_num [inner2, sumTo, haar2, colsPass, rowsPass, haarRow, two, zero]
+
+/-! ## Round 3: energy of the Daubechies transform -/
+
+/-- `energy` (the `sumTo` form used by `C17_haar_energy`) is the `Finset` double sum `energy2` of `Proofs/C17Energy.lean` -/
+theorem energy_eq_energy2 {K : Type} [Field K] (N0 N1 : Nat) (g : Im K) : energy N0 N1 g = energy2 N0 N1 g :=
+  (energy2_eq_sumTo N0 N1 g).symm
+
+/-- **C17 (`daubechies_energy_bound`).** Energy of the Daubechies analysis transform for coefficient lists that
+satisfy the quadrature-mirror identities only approximately — every even number `n ≥ 2` of coefficients, no other
+hypothesis on them, every ordered field. For every even-sided image that vanishes in its first `n − 2` rows and
+columns (what embedding with `wavelet_center`, fill value 0, at offsets `≥ n − 2` provides; without a margin the code
+drops the analysis samples of negative index and the energy is *not* conserved even by an exact filter):
+
+`|Σ (daubechies f)² − 4·Σ f²| ≤ (8d + 4d²)·Σ f²`, `d = errConst cs = ½ Σ_{j<n−1} |resid cs |j − (n/2−1)||`
+
+(the factor 4 is the normalisation `Σ c_k² = 2` per axis, as for the unnormalised Haar transform `D2`); if every
+identity holds within `ε` the same with `d = (n − 1)/2·ε`; and for exactly quadrature-mirror coefficients
+`Σ (daubechies f)² = 4·Σ f²`. (Proof, `Proofs/C17Energy.lean`: the synthesis kernel is half the transpose of the analysis
+kernel on such rows — `wavelet_adjoint` — so `Σ (Wf)² = 2 Σ f·iW(Wf) = 2Σf² + 2Σ f·errRow f` by the row identity;
+`|Σ_x f[x] f[x+2s]| ≤ Σ f²`.) -/
+theorem C17_daubechies_energy_bound {K : Type} [Field K] [LinearOrder K] [IsStrictOrderedRing K]
+    (cs : List K) (heven : cs.length % 2 = 0) (hpos : 2 ≤ cs.length) (N0 N1 : Nat) (h0 : N0 % 2 = 0)
+    (h1 : N1 % 2 = 0) (f : Im K)
+    (hy0 : ∀ y x, y < N0 → x < N1 → y + 2 < cs.length → f y x = 0)
+    (hx0 : ∀ y x, y < N0 → x < N1 → x + 2 < cs.length → f y x = 0) :
+    |energy N0 N1 (daubechies2 cs N0 N1 f) - 4 * energy N0 N1 f|
+        ≤ (8 * errConst cs + 4 * errConst cs ^ 2) * energy N0 N1 f ∧
+    (∀ eps : K, (∀ s, s < cs.length / 2 → |resid cs s| ≤ eps) →
+      |energy N0 N1 (daubechies2 cs N0 N1 f) - 4 * energy N0 N1 f|
+        ≤ (8 * (((cs.length - 1 : Nat) : K) / 2 * eps) + 4 * (((cs.length - 1 : Nat) : K) / 2 * eps) ^ 2)
+            * energy N0 N1 f) ∧
+    (qmfExact cs → energy N0 N1 (daubechies2 cs N0 N1 f) = 4 * energy N0 N1 f) := by
+  have hb := abs_daubechies2_energy_le_of_lt cs heven (rowIdentity_general two_ne_zero cs heven hpos)
+    N0 N1 h0 h1 f hy0 hx0
+  rw [← energy_eq_energy2, ← energy_eq_energy2] at hb
+  have hE : 0 ≤ energy N0 N1 f := by
+    rw [energy_eq_energy2]
+    unfold energy2
+    exact Finset.sum_nonneg fun y _ => Finset.sum_nonneg fun x _ => sq_nonneg _
+  have d0 := errConst_nonneg cs
+  have hmono : ∀ eps : K, (∀ s, s < cs.length / 2 → |resid cs s| ≤ eps) →
+      |energy N0 N1 (daubechies2 cs N0 N1 f) - 4 * energy N0 N1 f|
+        ≤ (8 * (((cs.length - 1 : Nat) : K) / 2 * eps) + 4 * (((cs.length - 1 : Nat) : K) / 2 * eps) ^ 2)
+            * energy N0 N1 f := by
+    intro eps heps
+    have hd := errConst_le cs heven eps heps
+    refine le_trans hb (mul_le_mul_of_nonneg_right ?_ hE)
+    have hsq : errConst cs ^ 2 ≤ (((cs.length - 1 : Nat) : K) / 2 * eps) ^ 2 := pow_le_pow_left₀ d0 hd 2
+    linarith
+  refine ⟨hb, hmono, ?_⟩
+  intro hq
+  have hr := (qmfExact_iff_resid cs).mp hq
+  have h := hmono 0 (fun s hs => by rw [hr s hs, abs_zero])
+  simp only [mul_zero, ne_eq, OfNat.ofNat_ne_zero, not_false_eq_true, zero_pow, add_zero, zero_mul] at h
+  exact sub_eq_zero.mp (abs_eq_zero.mp (le_antisymm h (abs_nonneg _)))
+
+/-- **C17 (`daubechies_energy_bound` after `wavelet_center`).** For an image embedded by `wavelet_center` with fill
+value 0 at offsets `d0, d1 ≥ n − 2` into an even-sided image (`C17_center_margin`), the bound of
+`C17_daubechies_energy_bound` holds for the embedded image, whatever `f` is. -/
+theorem C17_daubechies_energy_centered {K : Type} [Field K] [LinearOrder K] [IsStrictOrderedRing K]
+    (cs : List K) (heven : cs.length % 2 = 0) (hpos : 2 ≤ cs.length) (N0 N1 d0 d1 M0 M1 : Nat)
+    (hM0 : M0 % 2 = 0) (hM1 : M1 % 2 = 0) (hd0 : cs.length ≤ d0 + 2) (hd1 : cs.length ≤ d1 + 2) (f : Im K) :
+    |energy M0 M1 (daubechies2 cs M0 M1 (center N0 N1 d0 d1 0 f)) - 4 * energy M0 M1 (center N0 N1 d0 d1 0 f)|
+      ≤ (8 * errConst cs + 4 * errConst cs ^ 2) * energy M0 M1 (center N0 N1 d0 d1 0 f) := by
+  refine (C17_daubechies_energy_bound cs heven hpos M0 M1 hM0 hM1 (center N0 N1 d0 d1 0 f) ?_ ?_).1
+  · intro y x _ _ hy
+    have : ¬ (d0 ≤ y ∧ y < d0 + N0 ∧ d1 ≤ x ∧ x < d1 + N1) := by omega
+    simp only [center, this, if_false]
+  · intro y x _ _ hx
+    have : ¬ (d0 ≤ y ∧ y < d0 + N0 ∧ d1 ≤ x ∧ x < d1 + N1) := by omega
+    simp only [center, this, if_false]
+
+/-- the energy constants of the generated tables, by exact rational arithmetic: `8d + 4d² ≤ 4·tableTol[code]` -/
+theorem tables_energy_consts :
+    (List.range 10).all (fun code =>
+      decide ((coeffsOf code : List ℚ).length = 2 * (code + 1)) &&
+      decide (8 * errConst (coeffsOf code : List ℚ) + 4 * errConst (coeffsOf code : List ℚ) ^ 2
+        ≤ 4 * tableTol.getD code 0)) = true := by decide +kernel
+
+/-- **C17 (energy of the ten generated tables).** For each table `D2 … D20` the translator extracts (the float32
+values the compiler stores, as exact rationals) and every even-sided rational image vanishing in its first
+`ncoeffs − 2` rows and columns: `|Σ (daubechies f)² − 4·Σ f²| ≤ 4·tableTol[code]·Σ f²` — relative energy defect at most
+`tableTol = (0, 1.3e-7, 1.9e-7, 2.5e-6, 1.7e-7, 7e-8, 8.1e-7, 1.5e-7, 7e-8, 1.1e-7)`, the same constants as the
+reconstruction tolerance (`C17_tables_error_bound`). Exact arithmetic; the floating-point rounding of the kernels is
+not covered. -/
+theorem C17_tables_energy_bound (code : Nat) (hc : code < 10) (N0 N1 : Nat) (h0 : N0 % 2 = 0) (h1 : N1 % 2 = 0)
+    (f : Im ℚ)
+    (hy0 : ∀ y x, y < N0 → x < N1 → y + 2 < 2 * (code + 1) → f y x = 0)
+    (hx0 : ∀ y x, y < N0 → x < N1 → x + 2 < 2 * (code + 1) → f y x = 0) :
+    |energy N0 N1 (daubechies2 (coeffsOf code) N0 N1 f) - 4 * energy N0 N1 f|
+      ≤ 4 * tableTol.getD code 0 * energy N0 N1 f := by
+  have h := List.all_eq_true.mp tables_energy_consts code (List.mem_range.mpr hc)
+  simp only [Bool.and_eq_true, decide_eq_true_eq] at h
+  obtain ⟨hlen, htol⟩ := h
+  have hb := (C17_daubechies_energy_bound (coeffsOf code : List ℚ) (by rw [hlen]; omega) (by rw [hlen]; omega)
+    N0 N1 h0 h1 f (by rw [hlen]; exact hy0) (by rw [hlen]; exact hx0)).1
+  have hE : 0 ≤ energy N0 N1 f := by
+    rw [energy_eq_energy2]
+    unfold energy2
+    exact Finset.sum_nonneg fun y _ => Finset.sum_nonneg fun x _ => sq_nonneg _
+  exact le_trans hb (mul_le_mul_of_nonneg_right htol hE)
+
+/-- non-vacuity of the support hypothesis and of the energy identity: the exact four-tap filter
+`(3/5, 6/5, 2/5, −1/5)` on the 4×4 image that is 1 at `(2, 2)` and 0 elsewhere (it vanishes in its first two rows
+and columns): the transform has energy `4 = 4·1` -/
+example : energy 4 4 (daubechies2 ([3 / 5, 6 / 5, 2 / 5, -1 / 5] : List ℚ) 4 4
+      (fun y x => if y = 2 ∧ x = 2 then 1 else 0)) = 4 ∧
+    energy 4 4 (fun y x => if y = 2 ∧ x = 2 then (1 : ℚ) else 0) = 1 := by
+  constructor <;> decide +kernel
